@@ -186,50 +186,26 @@ Qed.
 Lemma str_eqb_refl_is1 t c : str_eqb t [c] = is1 t c.
 Proof. apply str_eqb_is1. Qed.
 
+Ltac vtail :=
+  cbn [r_year r_century r_month r_day r_tzname r_tzoffset set_year set_ymdc set_tzname set_tzoffset isSome
+       opt_eqz ostr_truthy ostr_eq str_eqb is1 negb andb orb bind Z.eqb Pos.eqb];
+  rewrite ?andb_true_r, ?andb_false_r, ?orb_false_r, ?pg_utczone_eq;
+  repeat (cbn [bind negb andb orb];
+          match goal with
+          | |- ?x = ?x => reflexivity
+          | |- context [if ?c then _ else _] => noif c; destruct c eqn:?
+          end);
+  try reflexivity; try discriminate.
+
 Theorem pg_validate_eq cur r :
   pg_parserinfo_validate cur r = match validate cur r with Ok r' => Ok (true, r') | Err e => Err e end.
 Proof.
   unfold pg_parserinfo_validate, validate. destruct r as [yr mo da wd ho mi se us tn tzo ap ce].
-  cbn [r_year r_century r_month r_day r_tzname r_tzoffset set_year set_ymdc set_tzname set_tzoffset isSome].
-  assert (TAIL : forall y',
-    (let v_res := mkRes y' mo da wd ho mi se us tn tzo ap ce in
-     if (opt_eqz (r_tzoffset v_res) 0 && negb (ostr_truthy (r_tzname v_res)))
-        || (ostr_eq (r_tzname v_res) [90] || ostr_eq (r_tzname v_res) [122])
-     then Ok (true, set_tzoffset (set_tzname v_res (Some [85; 84; 67])) (Some 0))
-     else if negb (opt_eqz (r_tzoffset v_res) 0) && ostr_truthy (r_tzname v_res)
-          then match r_tzname v_res with
-               | Some a => bind (pg_parserinfo_utczone a) (fun t => if t then Ok (true, set_tzoffset v_res (Some 0))
-                                                                     else Ok (true, v_res))
-               | None => Err TypeError
-               end
-          else Ok (true, v_res)) =
-    (let r1 := mkRes y' mo da wd ho mi se us tn tzo ap ce in
-     match (let name_falsy := match r_tzname r1 with None | Some [] => true | _ => false end in
-            let off0 := match r_tzoffset r1 with Some 0 => true | _ => false end in
-            let is_z := match r_tzname r1 with Some t => is1 t 90 || is1 t 122 | None => false end in
-            if (off0 && name_falsy) || is_z then Ok (set_tzoffset (set_tzname r1 (Some [85; 84; 67])) (Some 0))
-            else if negb off0 && negb name_falsy
-                    && (match r_tzname r1 with Some t => info_utczone t | None => false end)
-                 then Ok (set_tzoffset r1 (Some 0)) else Ok r1)
-     with Ok r' => Ok (true, r') | Err e => Err e end)).
-  { intros y'. cbv zeta. cbn [r_tzname r_tzoffset].
-    assert (O : opt_eqz tzo 0 = match tzo with Some 0 => true | _ => false end).
-    { destruct tzo as [[|p|p]|]; reflexivity. }
-    rewrite O. set (off0 := match tzo with Some 0 => true | _ => false end).
-    destruct tn as [[|c [|x t]]|]; cbn [ostr_truthy ostr_eq negb is1 andb orb str_eqb];
-      rewrite ?andb_false_r, ?andb_true_r, ?orb_false_r; cbn [orb negb andb];
-      rewrite ?pg_utczone_eq; cbn [bind].
-    - destruct off0; reflexivity.
-    - destruct ((c =? 90) || (c =? 122)); cbn [orb]; [reflexivity|].
-      destruct off0; cbn [negb andb]; [reflexivity|].
-      destruct (info_utczone [c]); reflexivity.
-    - destruct off0; cbn [negb andb]; [reflexivity|].
-      destruct (info_utczone (c :: x :: t)); reflexivity.
-    - destruct off0; reflexivity. }
+  cbn [r_year r_century isSome].
   destruct yr as [yv|]; cbn [isSome].
   - rewrite pg_convertyear_eq. destruct (convertyear cur yv ce) as [y'|e]; cbn [bind]; [|reflexivity].
-    apply (TAIL (Some y')).
-  - cbn [bind]. apply (TAIL None).
+    destruct tzo as [[|p|p]|], tn as [[|c [|x t]]|]; vtail.
+  - cbn [bind]. destruct tzo as [[|p|p]|], tn as [[|c [|x t]]|]; vtail.
 Qed.
 
 Theorem pg_parse_min_sec_eq v : pg_parser_parse_min_sec v = Ok (parse_min_sec v).
